@@ -355,6 +355,10 @@ def run_one_path(ex, world, fn, c):
             ex.eval_clause(h, pfr, hint=True)
         except (VCError, _Raise):
             pass  # a hint that does not apply on this path (e.g. names a local the path never bound)
+    for i, cl in enumerate(c.asserts):
+        z = ex.eval_clause(cl, pfr)
+        ex.oblige("assert", z, fn.node, tag=f"#exit.{i}")
+        ex.p.assume(z)
     for i, e in enumerate(c.ensures):
         nm = c.ensures_names[i] if c.ensures_names else str(i)
         ex.oblige("post", ex.eval_clause(e, pfr), fn.node, tag=f"#{nm}")
